@@ -21,6 +21,8 @@ const PIECES: &[&[u8]] = &[
     "😀".as_bytes(),
     "\u{301}".as_bytes(), // combining acute (zero width)
     "\u{fffd}".as_bytes(), // a literal, validly encoded replacement character
+    &[0x11],              // control bytes that differ from a digit / `.` in bit 0x20 only
+    &[0x0e],
     &[0x80],              // lone continuation byte
     &[0xE2, 0x82],        // truncated 3-byte sequence
     &[0xFF],
